@@ -175,10 +175,17 @@ Variables c1 c2 : oconfig.
 Hypothesis H1 : ws_fmt (oc_fmt c1).
 Hypothesis H2 : ws_fmt (oc_fmt c2).
 Variable Rel : list citem -> list citem -> Prop.
-Hypothesis Rel_app : forall x y z, Rel x y -> Rel (x ++ z) (y ++ z).
+(* [Eqv]: what counts as "the same items" appended to both runs; [FRel]: how the field counters
+   of the two runs are related (equal, in all instances but the text-only one) *)
+Variable Eqv : list citem -> list citem -> Prop.
+Variable FRel : N -> N -> Prop.
+Hypothesis Rel_app : forall x y z1 z2, Rel x y -> Eqv z1 z2 -> Rel (x ++ z1) (y ++ z2).
+Hypothesis Eqv_refl : forall z, Eqv z z.
+Hypothesis FRel_tokens : forall F1 F2 v, FRel F1 F2 ->
+  Eqv (canon_tokens F1 v) (canon_tokens F2 v) /\ FRel (next_field F1 v) (next_field F2 v).
 Variable Pn : anode -> Prop.
 
-Definition Sim (a b : fstate) : Prop := Rel (content a) (content b) /\ fs_field a = fs_field b.
+Definition Sim (a b : fstate) : Prop := Rel (content a) (content b) /\ FRel (fs_field a) (fs_field b).
 
 Hypothesis A_tag : forall n, tag_name c2 n = tag_name c1 n.
 Hypothesis A_cb : oc_comment_before c2 = oc_comment_before c1.
@@ -191,20 +198,20 @@ Hypothesis S_selfclose : forall a b, Sim a b ->
 Lemma Sim_push_str s a b : Sim a b -> Sim (push_str c1 s a) (push_str c2 s b).
 Proof.
   intros [Hc Hfld]. split; [|exact Hfld].
-  rewrite (ct_push_str c1 H1), (ct_push_str c2 H2). apply Rel_app, Hc.
+  rewrite (ct_push_str c1 H1), (ct_push_str c2 H2). apply Rel_app; [exact Hc|apply Eqv_refl].
 Qed.
 
 Lemma Sim_push_tokens v a b : Sim a b -> Sim (push_tokens c1 v a) (push_tokens c2 v b).
 Proof.
-  intros [Hc Hfld]. split.
-  - rewrite (ct_push_tokens c1 H1), (ct_push_tokens c2 H2), Hfld. apply Rel_app, Hc.
-  - rewrite !fld_push_tokens, Hfld. reflexivity.
+  intros [Hc Hfld]. destruct (FRel_tokens _ _ v Hfld) as [E1 E2]. split.
+  - rewrite (ct_push_tokens c1 H1), (ct_push_tokens c2 H2). apply Rel_app; assumption.
+  - rewrite !fld_push_tokens. exact E2.
 Qed.
 
 Lemma Sim_left a a' b : content a' = content a -> fs_field a' = fs_field a -> Sim a b -> Sim a' b.
-Proof. intros E1 E2 [Hc Hfld]. split; [rewrite E1; exact Hc|congruence]. Qed.
+Proof. intros E1 E2 [Hc Hfld]. split; [rewrite E1; exact Hc|rewrite E2; exact Hfld]. Qed.
 Lemma Sim_right a b b' : content b' = content b -> fs_field b' = fs_field b -> Sim a b -> Sim a b'.
-Proof. intros E1 E2 [Hc Hfld]. split; [rewrite E1; exact Hc|congruence]. Qed.
+Proof. intros E1 E2 [Hc Hfld]. split; [rewrite E1; exact Hc|rewrite E2; exact Hfld]. Qed.
 
 Lemma Sim_level d1 d2 a b :
   Sim a b -> Sim (map_out (fun o => os_add_level o d1) a) (map_out (fun o => os_add_level o d2) b).
@@ -327,18 +334,20 @@ Qed.
 Lemma Sim_strip_l s rest a b :
   Sim a b -> Sim (push_tokens c1 rest (push_str c1 (lstrip s) a)) (push_tokens c2 (VStr s :: rest) b).
 Proof.
-  intros [Hc Hfld]. split.
-  - rewrite (ct_push_tokens c1 H1), (ct_push_str c1 H1), (ct_push_tokens c2 H2), fld_push_str, Hfld.
-    cbn [canon_tokens flat_map]. rewrite canon_str_lstrip, app_assoc. apply Rel_app, Rel_app, Hc.
-  - rewrite !fld_push_tokens, fld_push_str, Hfld. reflexivity.
+  intros [Hc Hfld]. destruct (FRel_tokens _ _ rest Hfld) as [E1 E2]. split.
+  - rewrite (ct_push_tokens c1 H1), (ct_push_str c1 H1), (ct_push_tokens c2 H2), fld_push_str.
+    cbn [canon_tokens flat_map]. rewrite canon_str_lstrip, app_assoc.
+    apply Rel_app; [apply Rel_app; [exact Hc|apply Eqv_refl]|exact E1].
+  - rewrite !fld_push_tokens, fld_push_str. exact E2.
 Qed.
 Lemma Sim_strip_r s rest a b :
   Sim a b -> Sim (push_tokens c1 (VStr s :: rest) a) (push_tokens c2 rest (push_str c2 (lstrip s) b)).
 Proof.
-  intros [Hc Hfld]. split.
-  - rewrite (ct_push_tokens c1 H1), (ct_push_tokens c2 H2), (ct_push_str c2 H2), fld_push_str, Hfld.
-    cbn [canon_tokens flat_map]. rewrite canon_str_lstrip, app_assoc. apply Rel_app, Rel_app, Hc.
-  - rewrite !fld_push_tokens, fld_push_str, Hfld. reflexivity.
+  intros [Hc Hfld]. destruct (FRel_tokens _ _ rest Hfld) as [E1 E2]. split.
+  - rewrite (ct_push_tokens c1 H1), (ct_push_tokens c2 H2), (ct_push_str c2 H2), fld_push_str.
+    cbn [canon_tokens flat_map]. rewrite canon_str_lstrip, app_assoc.
+    apply Rel_app; [apply Rel_app; [exact Hc|apply Eqv_refl]|exact E1].
+  - rewrite !fld_push_tokens, fld_push_str. exact E2.
 Qed.
 
 Lemma Sim_el_snippet node n1 n2 a b :
@@ -435,16 +444,21 @@ Proof.
 Qed.
 
 Theorem Sim_html_format children :
-  Rel [] [] -> Forall all_nodes children ->
+  Rel [] [] -> FRel 1 1 -> Forall all_nodes children ->
   Rel (content (html_format c1 children)) (content (html_format c2 children)).
 Proof.
-  intros Hnil Hall. rewrite !html_format_walk.
+  intros Hnil Hone Hall. rewrite !html_format_walk.
   destruct (Sim_html_walk None None children children children 0 0 (mkFs os_empty 1) (mkFs os_empty 1)) as [H _].
   - rewrite Forall_forall in *. intros n Hin. apply Sim_html_element, Hall, Hin.
-  - split; [exact Hnil|reflexivity].
+  - split; [exact Hnil|exact Hone].
   - exact H.
 Qed.
 End Two.
+
+(* the instances where "the same items" means equal items and the field counters are equal *)
+Lemma eq_tokens : forall (F1 F2 : N) v, F1 = F2 ->
+  canon_tokens F1 v = canon_tokens F2 v /\ next_field F1 v = next_field F2 v.
+Proof. intros F1 F2 v ->. split; reflexivity. Qed.
 
 (* ================================================================ instance 1: cosmetic options *)
 Lemma all_nodes_true : forall n, all_nodes (fun _ => True) n.
@@ -453,55 +467,26 @@ Proof.
   induction ch as [|x r IH]; [exact I|]. inversion IHch; subst. split; [assumption|apply IH; assumption].
 Qed.
 
+Lemma eq_app2 : forall x y z1 z2 : list citem, x = y -> z1 = z2 -> x ++ z1 = y ++ z2.
+Proof. intros x y z1 z2 -> ->. reflexivity. Qed.
+
+Ltac side :=
+  first [ assumption | exact eq_app2 | exact eq_tokens | exact (@eq_refl (list citem)) | reflexivity ].
+
 Section Cosmetic.
 Variables (c : oconfig) (k1 k2 : cosmetic).
 Hypothesis H1 : ws_fmt (k_fmt k1).
 Hypothesis H2 : ws_fmt (k_fmt k2).
 Let c1 := with_cos k1 c.
 Let c2 := with_cos k2 c.
-Let SimE := Sim eq.
-
-Lemma eq_app : forall x y z : list citem, x = y -> x ++ z = y ++ z.
-Proof. intros x y z ->. reflexivity. Qed.
-
-Lemma cos_attr_write name v lq rq a b : SimE a b -> SimE (attr_write c1 name v lq rq a) (attr_write c2 name v lq rq b).
-Proof.
-  intros H. unfold attr_write. change (oc_self_closing_style c1) with (oc_self_closing_style c).
-  change (oc_self_closing_style c2) with (oc_self_closing_style c).
-  pose proof (Sim_push_str c1 c2 H1 H2 eq eq_app) as Ps. pose proof (Sim_push_tokens c1 c2 H1 H2 eq eq_app) as Pt.
-  destruct v as [[|v0 vr]|].
-  - destruct (negb (str_eqb (oc_self_closing_style c) s_html)); repeat apply Ps; exact H.
-  - apply Ps, Pt, Ps, Ps, H.
-  - destruct (negb (str_eqb (oc_self_closing_style c) s_html)); repeat apply Ps; exact H.
-Qed.
-
-Lemma cos_push_attribute x a b : SimE a b -> SimE (push_attribute c1 x a) (push_attribute c2 x b).
-Proof.
-  intros H. rewrite !push_attribute_unfold. destruct (aa_name x) as [[|y nm]|]; try exact H.
-  change (attr_out_name c2 x (y :: nm)) with (attr_out_name c1 x (y :: nm)).
-  change (attr_v1 c2 x (y :: nm)) with (attr_v1 c1 x (y :: nm)).
-  cbv zeta. destruct (attr_v1 c1 x (y :: nm)) as [[value1 lq] rq].
-  change (attr_value2 c2 x (attr_out_name c1 x (y :: nm)) value1) with (attr_value2 c1 x (attr_out_name c1 x (y :: nm)) value1).
-  apply cos_attr_write, H.
-Qed.
-
-Lemma cos_comment_node text n a b : SimE a b -> SimE (comment_node c1 text n a) (comment_node c2 text n b).
-Proof.
-  intros H. unfold comment_node. destruct text; [exact H|].
-  change (should_comment c2 n) with (should_comment c1 n). destruct (should_comment c1 n); [|exact H].
-  pose proof (Sim_push_str c1 c2 H1 H2 eq eq_app) as Ps. pose proof (Sim_push_tokens c1 c2 H1 H2 eq eq_app) as Pt.
-  unfold comment_output. apply (Sim_fold eq); [|exact H].
-  intros a' b' t H'. destruct t as [s|bf af nm]; [apply Ps, H'|].
-  destruct (assoc_str nm _); [|exact H']. apply Ps, Pt, Ps, H'.
-Qed.
 
 Theorem content_cosmetic children :
   content (html_format c1 children) = content (html_format c2 children).
 Proof.
-  apply (Sim_html_format c1 c2 H1 H2 eq eq_app (fun _ => True)); try reflexivity.
-  - intros text n a b _. apply cos_comment_node.
-  - apply cos_push_attribute.
-  - intros a b H. change (self_close c2) with (self_close c1). apply (Sim_push_str c1 c2 H1 H2 eq eq_app), H.
+  apply (Sim_html_format c1 c2 H1 H2 eq eq eq eq_app2 (@eq_refl _) eq_tokens (fun _ => True)); try reflexivity.
+  - intros text n a b _. apply Sim_comment_same with (Eqv := eq); try side.
+  - intros x a b H. apply Sim_push_attribute_same with (Eqv := eq); try side. right; reflexivity.
+  - intros a b H. change (self_close c2) with (self_close c1). apply Sim_push_str with (Eqv := eq); side.
   - apply Forall_forall. intros n _. apply all_nodes_true.
 Qed.
 End Cosmetic.
@@ -549,6 +534,8 @@ Lemma Adds_refl z : Adds z z.
 Proof. induction z; constructor; assumption. Qed.
 Lemma Adds_app x y z : Adds x y -> Adds (x ++ z) (y ++ z).
 Proof. induction 1; cbn [app]; [apply Adds_refl|constructor; assumption|constructor; assumption]. Qed.
+Lemma Adds_app2 x y z1 z2 : Adds x y -> z1 = z2 -> Adds (x ++ z1) (y ++ z2).
+Proof. intros H ->. apply Adds_app, H. Qed.
 Lemma Adds_more x y K : Adds x y -> Forall is_text K -> Adds (x ++ K) y.
 Proof.
   intros H HK. induction H; cbn [app].
@@ -618,7 +605,7 @@ Theorem comments_additive_lemma children :
   Forall (all_nodes (fun n => attrs_plain n = true)) children ->
   Adds (content (html_format c1 children)) (content (html_format c2 children)).
 Proof.
-  apply (Sim_html_format c1 c2 Hf Hf Adds Adds_app (fun n => attrs_plain n = true)); try reflexivity.
+  apply (Sim_html_format c1 c2 Hf Hf Adds eq eq Adds_app2 (@eq_refl _) eq_tokens (fun n => attrs_plain n = true)); try reflexivity.
   - (* comment_node: the run without comments does nothing *)
     intros text n a b Hp [Hc Hfld].
     assert (E2 : comment_node c2 text n b = b).
@@ -626,9 +613,71 @@ Proof.
     rewrite E2. destruct (comment_adds text n a Hp) as [K [E1 [HK E3]]]. split.
     + rewrite E1. apply Adds_more; assumption.
     + rewrite E3. exact Hfld.
-  - intros x a b H. apply (Sim_push_attribute_same c1 c2 Hf Hf Adds Adds_app); try reflexivity; [right; reflexivity|exact H].
-  - intros a b H. change (self_close c2) with (self_close c1). apply (Sim_push_str c1 c2 Hf Hf Adds Adds_app), H.
+  - intros x a b H. apply Sim_push_attribute_same with (Eqv := eq); try first [assumption | exact Adds_app2 | exact eq_tokens | reflexivity].
+    right; reflexivity.
+  - intros a b H. change (self_close c2) with (self_close c1).
+    apply Sim_push_str with (Eqv := eq); first [assumption | exact Adds_app2 | reflexivity].
   - constructor.
+Qed.
+
+(* ---- all trees: compare the texts only (a comment may repeat a field of an id / class value,
+   which shifts the later tabstop numbers but not the text) *)
+Definition item_text (i : citem) : str := match i with KT s => s | KF _ p => p end.
+Definition texts (X : list citem) : list str := map item_text X.
+(* [Sub y x]: y is a subsequence of x (x is y with items inserted) *)
+Inductive Sub {A} : list A -> list A -> Prop :=
+| sub_nil : Sub [] []
+| sub_keep i a b : Sub a b -> Sub (i :: a) (i :: b)
+| sub_add i a b : Sub a b -> Sub a (i :: b).
+Definition RelT (x y : list citem) : Prop := Sub (texts y) (texts x).
+Definition EqvT (z1 z2 : list citem) : Prop := texts z1 = texts z2.
+
+Lemma Sub_refl {A} (z : list A) : Sub z z.
+Proof. induction z; constructor; assumption. Qed.
+Lemma Sub_app {A} (y x z : list A) : Sub y x -> Sub (y ++ z) (x ++ z).
+Proof. induction 1; cbn [app]; [apply Sub_refl|constructor; assumption|constructor; assumption]. Qed.
+Lemma Sub_more {A} (y x K : list A) : Sub y x -> Sub y (x ++ K).
+Proof.
+  induction 1; cbn [app]; [|constructor; assumption|constructor; assumption].
+  induction K; constructor; assumption.
+Qed.
+Lemma RelT_app x y z1 z2 : RelT x y -> EqvT z1 z2 -> RelT (x ++ z1) (y ++ z2).
+Proof. unfold RelT, EqvT, texts. intros H E. rewrite !map_app, E. apply Sub_app, H. Qed.
+Lemma texts_tokens F1 F2 v : texts (canon_tokens F1 v) = texts (canon_tokens F2 v).
+Proof.
+  unfold texts. induction v as [|t v IH]; [reflexivity|]. cbn [canon_tokens flat_map]. rewrite !map_app.
+  fold (canon_tokens F1 v). fold (canon_tokens F2 v). rewrite IH. destruct t; reflexivity.
+Qed.
+
+Theorem comments_additive_text_lemma children :
+  Sub (texts (content (html_format c2 children))) (texts (content (html_format c1 children))).
+Proof.
+  apply (Sim_html_format c1 c2 Hf Hf RelT EqvT (fun _ _ => True) RelT_app (fun z => eq_refl)
+                         (fun F1 F2 v _ => conj (texts_tokens F1 F2 v) I) (fun _ => True)); try reflexivity.
+  - intros text n a b _ [Hc _].
+    assert (E2 : comment_node c2 text n b = b).
+    { unfold comment_node. destruct text; [reflexivity|]. reflexivity. }
+    rewrite E2. split; [|exact I]. unfold RelT in *.
+    (* whatever the comment wrote, the content of the run only grew *)
+    assert (G : exists K, content (comment_node c1 text n a) = content a ++ K).
+    { unfold comment_node. destruct text as [|t0 text0]; [exists []; rewrite app_nil_r; reflexivity|].
+      destruct (should_comment c1 n); [|exists []; rewrite app_nil_r; reflexivity].
+      unfold comment_output. generalize (template (t0 :: text0)) as toks. intros toks. clear Hc. revert a.
+      induction toks as [|t toks IH]; intros a; cbn [fold_left]; [exists []; rewrite app_nil_r; reflexivity|].
+      match goal with |- context [fold_left ?f toks ?st] => destruct (IH st) as [K E1] end.
+      destruct t as [s|bf af nm].
+      - exists (canon_str s ++ K). rewrite E1, (ct_push_str c1 Hf), <- app_assoc. reflexivity.
+      - destruct (assoc_str nm _) as [v|].
+        + eexists. rewrite E1, (ct_push_str c1 Hf), (ct_push_tokens c1 Hf), (ct_push_str c1 Hf), <- !app_assoc. reflexivity.
+        + exists K. exact E1. }
+    destruct G as [K E]. rewrite E. unfold texts. rewrite map_app. apply Sub_more, Hc.
+  - intros x a b H.
+    apply (Sim_push_attribute_same c1 c2 Hf Hf RelT EqvT (fun _ _ => True) RelT_app (fun z => eq_refl)
+             (fun F1 F2 v _ => conj (texts_tokens F1 F2 v) I) x a b); try reflexivity; [right; reflexivity|exact H].
+  - intros a b H. change (self_close c2) with (self_close c1).
+    apply (Sim_push_str c1 c2 Hf Hf RelT EqvT (fun _ _ => True) RelT_app (fun z => eq_refl)), H.
+  - constructor.
+  - apply Forall_forall. intros n _. apply all_nodes_true.
 Qed.
 End Comments.
 
@@ -658,6 +707,8 @@ Lemma RelS_app x y z : RelS x y -> RelS (x ++ z) (y ++ z).
 Proof.
   intros H. apply Forall2_app; [exact H|]. induction z; constructor; [left; reflexivity|assumption].
 Qed.
+Lemma RelS_app2 x y z1 z2 : RelS x y -> z1 = z2 -> RelS (x ++ z1) (y ++ z2).
+Proof. intros H ->. apply RelS_app, H. Qed.
 
 Lemma canon_close_mark c0 : canon_str (self_close c0 ++ [c_gt]) = [close_mark c0].
 Proof.
@@ -676,9 +727,9 @@ Qed.
 Theorem selfclose_local_lemma children :
   RelS (content (html_format c1 children)) (content (html_format c2 children)).
 Proof.
-  apply (Sim_html_format c1 c2 Hf Hf RelS RelS_app (fun _ => True)); try reflexivity.
-  - intros text n a b _. apply (Sim_comment_same c1 c2 Hf Hf RelS RelS_app). reflexivity.
-  - intros x a b H. apply (Sim_push_attribute_same c1 c2 Hf Hf RelS RelS_app); try reflexivity; [|exact H].
+  apply (Sim_html_format c1 c2 Hf Hf RelS eq eq RelS_app2 (@eq_refl _) eq_tokens (fun _ => True)); try reflexivity.
+  - intros text n a b _. apply Sim_comment_same with (Eqv := eq); first [assumption | exact RelS_app2 | exact eq_tokens | reflexivity].
+  - intros x a b H. apply Sim_push_attribute_same with (Eqv := eq); try first [assumption | exact RelS_app2 | exact eq_tokens | reflexivity].
     left. apply value2_truthy.
   - intros a b [Hc Hfld]. split; [|exact Hfld].
     rewrite (ct_push_str c1 Hf), (ct_push_str c2 Hf), !canon_close_mark.
